@@ -41,7 +41,7 @@ MONO = 'cut(all(implies(x in prev(orders), x in orders) for x in universe("str")
 PEND = '([] if pendings is None else pendings)'
 RANKS = U(f'implies(desc(a, symbol) and mod_of(a) == {M} and p in {PEND}, krank(name_of(a)) < krank(p))', p='str', a='Refl')
 
-contract(DB, 'SymbolDB._order_keys_recursive', 'C14', types=T, rewrites=RW,
+contract(DB, 'SymbolDB._order_keys_recursive', ['C14', 'C05'], types=T, rewrites=RW,
 	requires=[f'len({M}) > 0', ACYC, TYPE_ENTRY, RANKS, inv('orders')],
 	modifies=['orders'],
 	ensures=[
@@ -63,7 +63,7 @@ contract(DB, 'SymbolDB._order_keys_recursive', 'C14', types=T, rewrites=RW,
 	})
 
 SAME_KEYS = U('(k in self.__paths) == (k in self.__items)', k='str')
-contract(DB, 'SymbolDB._order_keys', 'C14', types={'self': 'SymbolDB', 'return': 'list[str]', 'paths': 'tuple[str, str]'}, rewrites={'self.__paths.items()': 'path_items(self.__paths)'},
+contract(DB, 'SymbolDB._order_keys', ['C14', 'C05'], types={'self': 'SymbolDB', 'return': 'list[str]', 'paths': 'tuple[str, str]'}, rewrites={'self.__paths.items()': 'path_items(self.__paths)'},
 	requires=[f'{M} is not None', f'len({M}) > 0', ACYC, TYPE_ENTRY, SAME_KEYS],
 	ensures=[
 		# Top: import never refers to a key not yet present - every key is listed after all keys its row refers to
